@@ -44,15 +44,15 @@ type KnownFile struct {
 }
 
 type Run struct {
-	ID      string
-	Tier    string
-	Seed    int64
-	Level   string
-	Work    string // scratch directory of this run (removed at the end)
-	Repo    string
-	Csvq    string // path of the csvq binary built with -tags verif
-	Start   time.Time
-	Rand    *rand.Rand
+	ID       string
+	Tier     string
+	Seed     int64
+	Level    string
+	Work     string // scratch directory of this run (removed at the end)
+	Repo     string
+	Csvq     string // path of the csvq binary built with -tags verif
+	Start    time.Time
+	Rand     *rand.Rand
 	Thorough bool
 
 	mtx        sync.Mutex
